@@ -1367,8 +1367,14 @@ func runKMountC13(c *core.Case, k int) {
 			return
 		}
 		// --- the primary is halted
+		// (rollback modes only: in WAL mode SQLite's own read-lock retry loop
+		// spins for ten seconds before giving up with SQLITE_PROTOCOL, whatever
+		// the busy timeout; the simulator cases cover the halted WAL primary)
 		pos0 := mon.PosOf(P.Node, "db")
-		pw, err := pproc.open(pdb, false, "_busy_timeout=300")
+		pw, err := (*sqlDB)(nil), errors.New("skipped")
+		if mode != "wal" {
+			pw, err = pproc.open(pdb, false, "_busy_timeout=300")
+		}
 		if err == nil {
 			werr := pw.exec(fmt.Sprintf("INSERT INTO t0 VALUES(%d,0,zeroblob(10))", 900000+round))
 			pw.close()
